@@ -25,6 +25,7 @@ func checkC04(c *Check, a *Anchors) {
 	c04RecordAfterSuccess(c, a)
 	queryNeverRecords(c, a, "query-never-records")
 	methodResolution(c, a, "method-resolution-agrees")
+	stateKeyInjective(c, a)
 	c05Generates(c, a)       // "its generates files still exist": every generates entry is checked on its own
 	c03CmdIgnoreScoped(c, a) // a cancelled or failed attempt reaches the rollback only if the command runner does not swallow its error
 }
